@@ -8,10 +8,10 @@ STUBS = "stubs: os.walk/scandir/isdir/isfile/exists/makedirs/abspath (virtual tr
 
 S1 = ("in", [], ["b.cmake", "A.CMAKE", "c.txt", "a-1.x.cmake", "a.cmake"])      # a-1.x.cmake < a.cmake by name, > by (stem, ext)
 S2 = ("in", [("z0", [], ["x.cmake"]), ("y1", [], ["x.cmake", "n.txt"])], ["b.cmake", "c.txt"])
-S2q = ("in", [("z0", [], ["x.cmake"]), ("y1", [], ["x.cmake"])], ["b.cmake"])
+S2q = ("in", [("z0", [], ["x.cmake"]), ("y1", [], ["x.cmake"])], ["b.v2.cmake"])      # a base name with an inner dot
 S2b = ("in", [("z0", [], ["n.txt"]), ("y1", [], ["M.CMake", "m.cmake"]), ("x2", [], ["q.cmake"])], ["b.cmake"])
-S3 = ("in", [("d1", [("d2", [("d3", [], ["k.cmake"])], ["j.cmake"])], ["i.cmake"])], ["h.cmake"])
-S4 = ("in", [("mid", [("deep", [], ["k.cmake"])], ["n.txt"])], ["h.cmake"])
+S3 = ("in", [("d1", [("d2", [("d3", [], ["k.cmake"])], ["j.x.cmake"])], ["i.cmake"])], ["h.cmake"])
+S4 = ("in", [("mid", [("deep", [], ["k.1.cmake"])], ["n.txt"])], ["h.cmake"])
 S5 = ("in", [("docs", [], ["old.rst"]), ("docs-old", [], ["l.cmake"])], ["h.cmake", "g.cmake"])      # a sibling whose name starts with the output directory's name
 S6 = ("in", [("Pkg", [], ["one.cmake"]), ("pkg", [], ["two.cmake"])], ["Utils.cmake", "utils.cmake", "alpha.cmake"])     # names differing only in case
 S7 = ("in", [], ["index.cmake", "a.cmake"])      # known finding D15: the page of index.cmake and the directory index share one path
